@@ -128,40 +128,99 @@ def d1(chk, prog):
             raise AnalysisError(f"C14-D1 missing column {name}: {e}")
 
 
+def literal_segments(chroms, levels, cn1=None, arms=None):
+    n = len(levels)
+    cols = {"chromosome": list(chroms), "start": [10 * i for i in range(n)], "end": [10 * i + 10 for i in range(n)], "gene": [f"g{i}" for i in range(n)],
+            "log2": [Fr(i, 4) for i in range(n)], "probes": [1] * n, "weight": [1] * n, "rowid": list(range(n))}
+    if cn1 is not None:
+        cols["cn"] = list(levels)
+        cols["cn1"] = list(cn1)
+        cols["cn2"] = [a - b for a, b in zip(levels, cn1)]
+    rows = [{c: v[i] for c, v in cols.items()} for i in range(n)]
+    g = make_ga("CopyNumArray", rows, {"sample_id": "S", "_arms": list(arms) if arms else None}, index="any", exact=True)
+    return g
+
+
+def want_groups(chroms, levels, cn1=None, arms=None):
+    """maximal runs of consecutive rows equal in chromosome (arm), level (and cn1 / cn2)"""
+    key = [(chroms[i], arms[i] if arms else 0, levels[i], cn1[i] if cn1 else 0, (levels[i] - cn1[i]) if cn1 else 0) for i in range(len(levels))]
+    out = []
+    for i, k in enumerate(key):
+        if out and key[out[-1][-1]] == k:
+            out[-1].append(i)
+        else:
+            out.append([i])
+    return out
+
+
 def d2(chk, prog):
-    chk.clause("D2", "group key = run index of the level + chromosome / arm ordinal (+ cn1, cn2 run indices)")
+    chk.clause("D2", "squash_by_groups merges exactly the maximal runs of consecutive rows equal in level, chromosome (arm) and, when present, cn1 / cn2 -- literal small tables")
     fi = prog.fn(f"{SF}.squash_by_groups")
-    fe = prog.fn(f"{SF}.enumerate_changes")
-    rets = [r.value for r in own_nodes(fe.node) if isinstance(r, ast.Return)]
-    chain = []
-    e = rets[0] if rets else None
-    while isinstance(e, ast.Call) and isinstance(e.func, ast.Attribute):
-        chain.append(e.func.attr)
-        e = e.func.value
-    chain = chain[::-1]
-    ok = len(rets) == 1 and norm(e) == "levels" and [c for c in chain if c in ("diff", "abs", "cumsum")] == ["diff", "abs", "cumsum"] and "fillna" in chain
-    chk.decide(ok, "group-key", f"enumerate_changes = levels.{'.'.join(chain)}: a new integer at every change of value", f"{fe.qn}::run index", fe.loc(),
-               f"run index must be cumsum(abs(diff(levels))) with the first element filled; found levels.{'.'.join(chain)}")
-    augs = [n for n in own_nodes(fi.node) if isinstance(n, ast.AugAssign) and isinstance(n.op, ast.Add) and norm(n.target) == "change_levels"]
-    srcs = sorted(norm(a.value) for a in augs)
-    ok = len(augs) == 2 and any("arm_levels" in s for s in srcs) and any("chrom_col" in s for s in srcs)
-    chk.decide(ok, "group-key", "change_levels += chromosome ordinal (or arm ordinal when by_arm)", f"{fi.qn}::chromosome term", fi.loc(),
-               f"the group key must add the chromosome / arm ordinal to the level run index (found += {srcs}): otherwise equal levels merge across chromosomes")
-    cc = [v for st, v in flow.assignments(fi.node, "chrom_col") if v is not None]
-    ok = len(cc) == 1 and norm(cc[0]).startswith("cnarr['chromosome'].map(") and "np.arange(len(chrom_names))" in norm(cc[0]) and "index=chrom_names" in norm(cc[0])
-    chk.decide(ok, "group-key", "chromosome ordinal = position of the name among the distinct chromosome names", f"{fi.qn}::chrom_col", fi.loc(), f"chrom_col = {[norm(c) for c in cc]}")
-    grp = [n for n in own_nodes(fi.node) if isinstance(n, ast.Assign) and norm(n.targets[0]) == "data" and isinstance(n.value, ast.Call) and "_group=change_levels" in norm(n.value)]
-    chk.decide(len(grp) == 1, "group-key", "data = cnarr.data.assign(_group=change_levels)", f"{fi.qn}::_group", fi.loc(), "the group column is no longer the combined level / chromosome key")
-    ifs = [n for n in own_nodes(fi.node) if isinstance(n, ast.If) and norm(n.test) == "'cn1' in cnarr"]
-    ok = len(ifs) == 1 and any("enumerate_changes(cnarr['cn1'])" in norm(s) for s in ifs[0].body) and any("enumerate_changes(cnarr['cn2'])" in norm(s) for s in ifs[0].body) \
-        and any(isinstance(s, ast.Expr) and norm(s.value) == "groupkey.extend(['_g1', '_g2'])" for s in ifs[0].body)
-    chk.decide(ok, "group-key", "allele-specific runs (cn1, cn2) join the group key when present", f"{fi.qn}::allele-specific key", fi.loc(),
-               "segments with equal cn but different cn1/cn2 must not merge: the cn1 / cn2 run indices have to be part of the group key")
-    gb = [n for n in own_nodes(fi.node) if isinstance(n, ast.Call) and isinstance(n.func, ast.Attribute) and n.func.attr == "groupby"]
-    ok = len(gb) == 1 and norm(gb[0].args[0]) == "groupkey" and any(k.arg == "sort" and norm(k.value) == "False" for k in gb[0].keywords)
-    chk.decide(ok, "group-key", "groupby(groupkey, sort=False): groups keep genomic order", f"{fi.qn}::groupby", fi.loc(), "grouping must be by the group key, unsorted")
-    ap = [n for n in own_nodes(fi.node) if isinstance(n, ast.Call) and isinstance(n.func, ast.Attribute) and n.func.attr == "apply" and n.args and norm(n.args[0]) == "squash_region"]
-    chk.decide(len(ap) == 1, "group-key", "each group is reduced by squash_region", f"{fi.qn}::apply", fi.loc(), "groups are no longer reduced by squash_region")
+    tb = Table(chk, "group-key", "squash_by_groups on literal tables: 1-4 rows x levels {0,1,2,4} x chromosome boundaries; allele-specific and by-arm variants", fi.loc(), fi.qn)
+    configs = []
+    for n in (1, 2, 3, 4):
+        for lv in itertools.product([0, 1, 2, 4], repeat=n):
+            for cuts in itertools.product([False, True], repeat=n - 1):
+                chroms, c = [], 0
+                for i in range(n):
+                    if i and cuts[i - 1]:
+                        c += 1
+                    chroms.append(f"chr{c + 1}")
+                configs.append((chroms, list(lv), None, None, False))
+    for lv in itertools.product([1, 2], repeat=3):
+        for c1 in itertools.product([0, 1], repeat=3):
+            configs.append((["chr1"] * 3, list(lv), list(c1), None, False))
+    for lv in itertools.product([0, 2, 4], repeat=3):
+        for arms in ([0, 0, 1], [0, 1, 1], [0, 0, 0]):
+            for chroms in (["chr1"] * 3, ["chr1", "chr1", "chr2"]):
+                configs.append((chroms, list(lv), None, arms, True))
+    bad, undecided = [], []
+    for chroms, lv, c1, arms, by_arm in configs:
+        W.reset()
+        g = literal_segments(chroms, lv, c1, arms)
+        model = Model()
+
+        def squash_region(it, sub):
+            d = DF({"chromosome": Vec([sub.cols["chromosome"].v[0]]), "rows": Vec([tuple(sub.cols["rowid"].v)])}, 1)
+            d.exact = True
+            return d
+        model.prims[f"{SF}.squash_region"] = squash_region
+
+        def by_arm_prim(it, ga):
+            a = ga.meta["_arms"]
+            ch = ga.data.cols["chromosome"].v
+            keys = []
+            for k in zip(ch, a):
+                if k not in keys:
+                    keys.append(k)
+            return [(k[0], GA(ga.cls, df_rows(ga.data, [i for i, kk in enumerate(zip(ch, a)) if kk == k]), 0, ga.meta)) for k in keys]
+        model.method_prims["by_arm"] = by_arm_prim
+        it = Interp(prog, model)
+        levels = Vec(list(lv), aligned=True)
+        levels.exact = True
+        try:
+            out = it.run(fi.qn, [g, levels, by_arm])
+        except Undecided as u:
+            undecided.append(f"{chroms} {lv} cn1={c1} arms={arms}: {u}")
+            continue
+        except Raised as r:
+            bad.append(dict(chromosomes=chroms, levels=lv, cn1=c1, arms=arms, raised=str(r)[:100]))
+            continue
+        data = out.data if isinstance(out, GA) else out
+        got = [list(x) for x in data.cols["rows"].v] if isinstance(data, DF) and "rows" in data.cols else ([[i] for i in data.cols["rowid"].v] if isinstance(data, DF) and "rowid" in data.cols else repr(out))
+        want = want_groups(chroms, lv, c1, arms)
+        if got != want:
+            bad.append(dict(chromosomes=chroms, levels=lv, cn1=c1, arms=arms, got=got, want=want))
+    if undecided:
+        raise AnalysisError(f"C14-D2: {len(undecided)} tables undecided, e.g. {undecided[0][:300]}")
+    tb.cell(not bad, dict(tables=len(configs), counterexamples=bad[:4], n_counterexamples=len(bad)))
+    tb.done("squash_by_groups does not merge exactly the runs of consecutive like rows within a chromosome (arm)")
+
+
+def df_rows(d, idx):
+    out = DF({c: Vec([v.v[i] for i in idx], aligned=True) for c, v in d.cols.items()}, len(idx), "subset")
+    out.exact = True
+    return out
 
 
 def d3(chk, prog):
@@ -338,6 +397,8 @@ MUTANTS = [
     dict(name="ampdel: amplification from 4", file=_F, old='    levels[segarr["cn"] >= 5] = 1', new='    levels[segarr["cn"] >= 4] = 1'),
     dict(name="ampdel: keeps cn > 5", file=_F, old='    return cnarr[(cnarr["cn"] == 0) | (cnarr["cn"] >= 5)]', new='    return cnarr[(cnarr["cn"] == 0) | (cnarr["cn"] > 5)]'),
     dict(name="cn filter groups by log2", file=_F, old='    return squash_by_groups(segarr, segarr["cn"])', new='    return squash_by_groups(segarr, segarr["log2"].round())'),
+    dict(name="seeded C14c: nothing-to-merge shortcut by the last run index", file=_F, old="    assert change_levels.index.is_unique\n", new="    assert change_levels.index.is_unique\n    if len(levels) and change_levels.iat[-1] == len(levels) - 1:\n        return cnarr\n"),
+    dict(name="twin: chromosome ordinal renamed and added out of place", expect="silent", file=_F, old="        change_levels += chrom_col\n", new="        chrom_ordinal = chrom_col\n        change_levels = change_levels + chrom_ordinal\n"),
     dict(name="chromosome ordinal dropped", file=_F, old="        change_levels += chrom_col\n", new=""),
     dict(name="allele-specific key dropped", file=_F, old='        groupkey.extend(["_g1", "_g2"])\n', new=""),
     dict(name="enumerate_changes without abs", file=_F, old="    return levels.diff().fillna(0).abs().cumsum().astype(int)", new="    return levels.diff().fillna(0).cumsum().astype(int)"),
